@@ -26,6 +26,7 @@ type evalCtx struct {
 	preds map[string]*Pred
 	depth int
 	loopVar func(n int, name string) (Val, bool)
+	entryName func(name string) (Val, bool)
 }
 
 func (e *evalCtx) withBound(name string, v Val) *evalCtx {
@@ -385,6 +386,36 @@ func (e *evalCtx) call(t *ast.CallExpr) Val {
 			e.fail("loopvar(%d, %s): not found", n, id2.Name)
 		}
 		return v
+	case "entry":
+		// entry(p): the value parameter p had on entry (inside a loop the
+		// bare name denotes the loop-carried variable)
+		id2, ok2 := t.Args[0].(*ast.Ident)
+		if !ok2 || e.entryName == nil {
+			e.fail("entry(name) is only available inside the function under verification")
+		}
+		v, found := e.entryName(id2.Name)
+		if !found {
+			e.fail("entry(%s): no such parameter", id2.Name)
+		}
+		return v
+	case "row":
+		// row(s): the element array of the object a slice / array pointer lives in
+		// (index it with off(s)+i); only for elements stored as one term.
+		a := e.eval(t.Args[0])
+		switch a.K {
+		case kSlice, kPtr:
+			if kindOf(a.Root) == kStruct {
+				e.fail("row of a slice of structs")
+			}
+			ls := sortOf(a.Root)
+			h := c.heapGet(e.st, heapKey(a.Root, nil), ls)
+			return mathVal("(Array Int "+ls+")", sx("select", h, a.Ref))
+		case kArray:
+			return mathVal(sortOf(a.T), a.S)
+		case kStr:
+			return mathVal("(Array Int Int)", sx("strrow", a.S))
+		}
+		e.fail("row of kind %d", a.K)
 	case "sameobj":
 		a, b := e.eval(t.Args[0]), e.eval(t.Args[1])
 		return boolVal(eq(a.Ref, b.Ref))
